@@ -40,9 +40,12 @@ def mm(x):
     return clip(x * 1000.0)
 
 
-def profile(amp, kind, rnd):
+def profile(amp, kind, rnd, peak_hour=None):
     out = []
     ph = rnd.uniform(0, 2 * math.pi)
+    if peak_hour is not None:
+        # the seasonal extreme (coldest for a heating profile, hottest otherwise) falls on this hour of the year
+        ph = (math.pi / 2 if kind == "heating" else 3 * math.pi / 2) - 2 * math.pi * peak_hour / 8760
     for h in range(8760):
         season = math.sin(2 * math.pi * h / 8760 + ph)
         hod = h % 24
@@ -81,7 +84,7 @@ def scenarios(t: str, seed: int):
         meth = methods[i % 6]
         sc = {"id": i, "method": meth, "pipe": pipes[(i // 6 + i) % 4], "flow": "BOREHOLE" if (i // 3) % 2 == 0 else "SYSTEM",
               "regime": regimes[(i * 5 + i // 6) % len(regimes)], "kind": ["balanced", "heating", "cooling", "spiky", "constant"][(i * 3 + i // 5) % 5],
-              "months": [12, 12, 25, 60, 12, 240][i % 6] if t == "thorough" else [12, 12, 25][i % 3], "seed": seed * 100003 + i}
+              "months": [12, 12, 25, 60, 12, 240][(i + i // 6) % 6] if t == "thorough" else [12, 12, 25][(i + i // 6) % 3], "seed": seed * 100003 + i}
         if meth == "ROWWISE":
             # removal branch (1X1 feasible / borehole-count bisection) and too-big branch; the spacing-bisection branch takes minutes: thorough tier only
             sc["regime"] = ["small", "rw-removal", "big-continue", "rw-removal", "big-stop"][(i // 6) % 5]
@@ -89,6 +92,11 @@ def scenarios(t: str, seed: int):
     # spacing windows that admit no whole number of rows (87 m with b_min = b_max = 5 m): no candidate field; the run must end in a ValueError (F23)
     for i, meth in enumerate(["RECTANGLE", "BIRECTANGLE", "BIZONEDRECTANGLE"]):
         out.append({"id": 2000 + i, "method": meth, "pipe": "SINGLEUTUBE", "flow": "BOREHOLE", "regime": "no-count", "kind": "balanced", "months": 12, "seed": seed * 11 + i})
+    # horizons that are not whole years and END in the month of the seasonal extreme (the binding peak is in the LAST month of the horizon)
+    ends = [(20, "cooling"), (14, "heating"), (19, "cooling"), (13, "heating"), (22, "balanced"), (17, "cooling")]
+    for i, (months, kind) in enumerate(ends if t == "thorough" else ends[:4]):
+        out.append({"id": 3000 + i, "method": ["NEARSQUARE", "RECTANGLE"][i % 2], "pipe": pipes[i % 4], "flow": "BOREHOLE" if i % 2 == 0 else "SYSTEM", "regime": "normal",
+                    "kind": kind, "months": months, "peak_in_last_month": True, "seed": seed * 13 + i})
     if t == "thorough":
         for i in range(4):
             out.append({"id": 1000 + i, "method": "ROWWISE", "pipe": "SINGLEUTUBE", "flow": "BOREHOLE", "regime": "rw-bisect", "kind": "balanced", "months": 12, "seed": seed * 7 + i})
@@ -126,7 +134,11 @@ def build(sc):
     max_eft, min_eft = by_kind[(sc["id"] // 5) % len(by_kind)]
     m.set_simulation_parameters(num_months=sc["months"], max_eft=max_eft, min_eft=min_eft, max_height=hmax, min_height=hmin, max_boreholes=cap, continue_if_design_unmet=cont)
     amp = {"normal": u(2500, 7000), "cap": u(4000, 9000), "small": u(600, 1500), "tiny-continue": u(20, 60), "big-stop": u(1.5e5, 3e5), "big-continue": u(1.5e5, 3e5), "rw-bisect": 12400.0, "rw-removal": u(3500, 9000), "no-count": u(2500, 7000)}[reg]
-    m.set_ground_loads_from_hourly_list(profile(amp, sc["kind"], rnd))
+    peak_hour = None
+    if sc.get("peak_in_last_month"):
+        starts = [0, 744, 1416, 2160, 2880, 3624, 4344, 5088, 5832, 6552, 7296, 8016]
+        peak_hour = starts[(sc["months"] - 1) % 12] + 14 * 24
+    m.set_ground_loads_from_hourly_list(profile(amp, sc["kind"], rnd, peak_hour))
     meth = sc["method"]
     if reg == "no-count":
         nc = {"length": 87.0, "width": 40.0, "b_min": 5.0}
@@ -152,7 +164,8 @@ def build(sc):
     vb = round(u(0.15, 0.5), 3)
     fr = vb if sc["flow"] == "BOREHOLE" else round(vb * rnd.choice([8, 15, 25]), 3)
     m.set_design(flow_rate=fr, flow_type_str=sc["flow"])
-    info = {"method": meth, "flow": sc["flow"], "V_dmLps": clip(fr * 1e4), "maxAllow_uK": uK(max_eft), "minAllow_uK": uK(min_eft), "Hmin_mm": mm(hmin), "Hmax_mm": mm(hmax),
+    # the mass flow the user asked for: per borehole (BOREHOLE) or shared by the whole field (SYSTEM), in mg/s
+    info = {"method": meth, "flow": sc["flow"], "V_dmLps": clip(fr * 1e4), "flow_mgps": clip(fr / 1000.0 * float(m._fluid.rho) * 1e6), "maxAllow_uK": uK(max_eft), "minAllow_uK": uK(min_eft), "Hmin_mm": mm(hmin), "Hmax_mm": mm(hmax),
             "cap": cap or 0, "cont": bool(cont), "months": sc["months"]}
     return m, info
 
@@ -317,8 +330,33 @@ def record_run(sc):
                 mx, mn = g2.simulate(method=TimestepType.HYBRID)
                 nan = any(x != x for x in g.hp_eft)
                 desc["nan_in_eft"] = nan
+                # "over the requested horizon": the same field simulated over ONE MORE month, looked at over the requested months only.
+                # While every month carries its peaks (horizons below two years) the first N months of an N+1-month simulation ARE the
+                # N-month simulation; beyond that the two differ legitimately and the extension is not made.
+                ext_mx, ext_mn = mx, mn
+                if sc["months"] < 24:
+                    from ghedesigner.ground_loads import HybridLoad  # noqa: PLC0415
+
+                    # both simulations use loads rebuilt the same way (fresh objects at the returned height), so that they differ by the
+                    # horizon alone; their difference over the requested months - zero when the horizon is honoured - is added to the re-simulation
+                    def fresh(extra):
+                        g3 = copy.deepcopy(g)
+                        g3.radial_numerical = RadialNumericalBH(g3.bhe.to_single())
+                        g3.radial_numerical.calc_sts_g_functions(g3.bhe_eq)
+                        sp3 = copy.copy(g3.sim_params)
+                        sp3.end_month = sp3.end_month + extra
+                        g3.sim_params = sp3
+                        g3.hybrid_load = HybridLoad(g3.hourly_extraction_ground_loads, g3.bhe_eq, g3.radial_numerical, sp3)
+                        g3.simulate(method=TimestepType.HYBRID)
+                        return g3
+
+                    ga, gb = fresh(0), fresh(1)
+                    end = float(ga.times[-1]) + 1e-6
+                    inside = [x for x, tt in zip(gb.hp_eft, gb.times) if tt <= end]
+                    ext_mx, ext_mn = mx + (max(inside) - max(ga.hp_eft)), mn + (min(inside) - min(ga.hp_eft))
+                    desc["horizon_extension"] = True
                 events.append({"e": "Final", "n": len(g.gFunction.bore_locations), "H_mm": mm(g.bhe.b.H), "rep_max_uK": uK(max(g.hp_eft)), "rep_min_uK": uK(min(g.hp_eft)),
-                               "resim_max_uK": uK(mx), "resim_min_uK": uK(mn)})
+                               "resim_max_uK": uK(mx), "resim_min_uK": uK(mn), "mdot_mgps": clip(g.bhe.m_flow_borehole * 1e6), "ext_max_uK": uK(ext_mx), "ext_min_uK": uK(ext_mn)})
                 if sc["months"] % 12 != 0:
                     raise _SkipReport()     # OutputManager cannot label a horizon that is not a whole number of years (IndexError): observation F18
                 try:
